@@ -7,7 +7,7 @@ from rules import rolling, common
 
 CLAIMED = True
 TECHNIQUE = "static analysis over type-checked MIR: comparison normal form of the trigger, field-write inventory and increment provenance of the byte counter, per-edge seeding of the counter coupled to the truncate flag's truth table, dominance of the size read by flush"
-LEVEL_TEXT = """Static, all-paths decision of: (Z1) SizeTrigger::trigger returns Ok(len_estimate > limit) in comparison normal form with len from LogFile::len_estimate and limit the trigger's own field; (Z2) every io::Write method of the log writer that writes to the file adds exactly the number of bytes the inner write accepted (Ok payload, or the slice length for write_all) to the counter, and the counter has no other writer besides the constructor aggregate; (Z3) in get_writer the counter is seeded from File::metadata().len() of the file just opened on every edge where truncate is false and with 0 only where the same flag makes truncate true; (Z4) the size handed to the policy is read after flush on the post-processing branch and the size trigger is post-processing (is_pre_process = const false); (Z5) Policy::process runs on every successful append (never deferred); (Z6) CompoundPolicy::process rolls whenever the trigger answers true — no second condition guards roll() or the roller; (Z8/Z9) a limit written in a configuration file is scaled by exactly the documented unit table and the product is checked for overflow (C20.L1/L2 premises re-evaluated), so the number compared against is the one configured; (Z7) the counted writer's file is reached only through write-family/flush calls on the buffered handle itself (a write that bypasses the handle would also bypass the counter). Equality with fs::metadata under partial writes or foreign writers is not decided."""
+LEVEL_TEXT = """Static, all-paths decision of: (Z1) SizeTrigger::trigger returns Ok(len_estimate > limit) in comparison normal form with len from LogFile::len_estimate and limit the trigger's own field; (Z2) every io::Write method of the log writer that writes to the file adds exactly the number of bytes the inner write accepted (Ok payload, or the slice length for write_all) to the counter, and the counter has no other writer besides the constructor aggregate; (Z3) in get_writer the counter is seeded from File::metadata().len() of the file just opened on every edge where truncate is false and with 0 only where the same flag makes truncate true; (Z4) the size handed to the policy is read after flush on the post-processing branch and the size trigger is post-processing (is_pre_process = const false); (Z5) Policy::process runs on every successful append (never deferred); (Z6) CompoundPolicy::process rolls whenever the trigger answers true — no second condition guards roll() or the roller; (Z8/Z9) a limit written in a configuration file is scaled by exactly the documented unit table and the product is checked for overflow (C20.L1/L2 premises re-evaluated), so the number compared against is the one configured; (Z7) the counted writer's file is reached only through write-family/flush calls on the buffered handle itself (a write that bypasses the handle would also bypass the counter). Equality with fs::metadata under partial writes or foreign writers is not decided. (Z13) a roll that reports success has taken the file away (C07.R5 table re-evaluated)."""
 LEVEL_NOTE = "Trusted: rustc MIR/callee resolution; BufWriter::write returns the number of bytes it accepted; File::metadata().len() is the on-disk size. Decides comparator direction, accounting provenance and ordering on all paths; not numeric equality with the file system."
 EXPLANATION = """Decided: Z1 comparator len > limit, Z2 accounting adds accepted bytes (sole writer), Z3 seeding coupled to truncate flag, Z4 size read after flush + trigger is post-processing, Z5 policy consulted on every successful append, Z6 a true trigger always rolls, Z7 no write path around the counter. Undecided: equality with the file system under partial writes/foreign writers."""
 DECIDED = ["Z1 comparator", "Z2 accounting", "Z3 seeding", "Z4 what the policy sees", "Z5 never deferred", "Z6 triggered => rolled", "Z7 single buffered handle", "Z8/Z9 the configured limit literal is scaled by the documented unit table with a checked multiplication (C20.L1/L2 re-evaluated)", "Z3b reopen appends unless truncating", "Z6b/Z6c a done roll took the file; directories made at roll time (C07 re-evaluated)", "Z10 the configured limit reaches the trigger unchanged"]
